@@ -80,6 +80,9 @@ def raw_quantities(B, dc, sname="main"):
 
 def check(case, ctx):
     spB = copy.deepcopy(case["spec"])
+    if any(c04.degenerate(c) for c in spB.get("constraints", [])):
+        ctx.count("relation_collapses_symbolically")
+        return []
     m = spB["method"]
     dc = m["cls"] == "DC"
     rng = np.random.default_rng(case["rng"])
